@@ -196,6 +196,39 @@ claim(
     "taint analysis (source/sanitiser/sink) by def-use + path enumeration for normalise-after-join + writer/reader table agreement",
 )
 
-_PENDING = "rules designed in DESIGN.md section 4 but not implemented yet in this session; no claim is made until the check exists"
-for _pid in ["C11", "C14", "C17"]:
-    NOT_APPLICABLE[_pid] = _PENDING
+claim(
+    "C11",
+    "Clause level, weak: wiring of the need mechanism only. Dispatch binds `_implied_need > need_threshold`, the threshold is DEFAULT iff "
+    "any target was given; the compiled read set of the need recomputation contains every ingredient of the definition (declared need, "
+    "consumers two hops away, attachedness, output state, labels, both target tables); reconcile_targets flags stale and newly matching "
+    "producers before the first tick; one shared regular-output predicate (identity + truth table) at all four sites; the target "
+    "classifier is pure; optional-revert and forbidden-target filters are truth tables. That _implied_need equals the least fixed point of "
+    "the need definition for every graph, and that the set of executed commands equals the needed set, is NOT decided.",
+    STATIC_TB,
+    "SQL read-set inclusion + shared-constant identity + truth tables + purity (no file-system effect reachable)",
+)
+
+claim(
+    "C14",
+    "Clause level, weak: the watch side and the restart side are compared as sibling implementations: same set of workflow reactions "
+    "reachable (modulo a reasoned difference table), same relevance filter (folded state sets, detached-filter of the glob selectors: "
+    "known finding F3bw), record_change interpreted over the change kinds keeps the two event sets disjoint, run_once prunes unchanged "
+    "paths before the glob reaction and signals only after clearing. Equivalence for all event sequences (delete-then-recreate, directory "
+    "moves, inotify coalescing) is run-time behaviour and is NOT claimed.",
+    STATIC_TB,
+    "sibling cross-check over call-graph reachability + folded constant sets + finite-domain interpretation of the event folder",
+)
+
+claim(
+    "C17",
+    "Clause level, weak: structure of the two pattern compilers and of matcher storage. Token exhaustiveness against the tokenizer regex; "
+    "the neighbour-merging if-chains of both compilers are interpreted over previous x next token (24 points) and must give the same "
+    "append/drop/replace table under the token correspondence; stored regex, pattern and data come from one (pattern, subs) and every "
+    "rebuild of a NamedGlob passes both; fullmatch everywhere; scan flags; extend-then-reduce on a deep copy. Agreement of the regex and "
+    "glob translations on every pattern and tree (the enclosed/trailing single-component rules, back-references) is value-level and NOT "
+    "claimed; a brute-force comparison outside the checks shows that gap is real (DESIGN.md, C17).",
+    STATIC_TB,
+    "exhaustiveness against the tokenizer + abstract interpretation of two sibling if-chains (table comparison) + def-use of matcher ingredients",
+)
+
+_PENDING = ""
